@@ -75,13 +75,14 @@ prop(
 prop(
     "C10",
     module="Aquatic.Props.C10",
-    extra_modules=["Aquatic.Props.Store"],
-    technique="Lean 4 proof (deadline arithmetic, clean = filter in both representations, refinement transport) + boundary differential runs (clean at d-1, d, d+1)",
+    extra_modules=["Aquatic.Props.Store", "Aquatic.Props.C10Ws", "Aquatic.Props.WsStore"],
+    technique="Lean 4 proof (deadline arithmetic, clean = filter in both representations and in the WebTorrent store with its pending offers, fresh deadline on every announce, refinement transport) + boundary differential runs (clean at d-1, d, d+1) on the UDP, HTTP and WebTorrent stores",
     runs=[dict(harness="timeunit", driver="time", quick=dict(cases=3000), thorough=dict(cases=300000)),
           dict(harness="udpstore", driver="store", quick=dict(cases=300, maxops=60), thorough=dict(cases=20000, maxops=160)),
-          dict(harness="httpstore", driver="store", quick=dict(cases=300, maxops=60), thorough=dict(cases=20000, maxops=160))],
-    nontrivial=["t=d-1", "t=d", "t=d+1", "u32-overflow-region", "cln-dropped-torrent", "large->small(clean)"],
-    level_text="Theorems: ValidUntil arithmetic (deadline = now + age exactly when representable, valid iff clock < deadline; full statement, its partial form and a negation witness for the one recorded edge), a cleaning pass keeps exactly the unexpired entries in both representations with an exact seeder counter, and the reference-level clauses (never earlier, gone at/after the deadline, re-announce refreshes) transported to the UDP and HTTP stores by the refinement theorem. Tie: ValidUntil::new_with_now/valid on boundary triples, store histories that clean one second before / at / after stored deadlines.",
+          dict(harness="httpstore", driver="store", quick=dict(cases=300, maxops=60), thorough=dict(cases=20000, maxops=160)),
+          dict(harness="wsstore", driver="wsstore", quick=dict(cases=400, maxops=60), thorough=dict(cases=20000, maxops=140))],
+    nontrivial=["t=d-1", "t=d", "t=d+1", "u32-overflow-region", "cln-dropped-torrent", "large->small(clean)", "clean-removed-peers", "wcln"],
+    level_text="WebTorrent part (C10Ws): on the reference the store refines for every history, a pass keeps a permitted entry whose deadline is in the future, removes it at or after the deadline, removes nothing else; a kept peer's pending offer stays exactly while its own deadline is in the future and the offers of a removed peer go with it; every non-stop announce stores the entry with deadline now + max_peer_age whatever it carried before and whether or not the status changed; forwarded offers are recorded with now + max_offer_age. Theorems: ValidUntil arithmetic (deadline = now + age exactly when representable, valid iff clock < deadline; full statement, its partial form and a negation witness for the one recorded edge), a cleaning pass keeps exactly the unexpired entries in both representations with an exact seeder counter, and the reference-level clauses (never earlier, gone at/after the deadline, re-announce refreshes) transported to the UDP and HTTP stores by the refinement theorem. Tie: ValidUntil::new_with_now/valid on boundary triples, store histories that clean one second before / at / after stored deadlines.",
     level_note="Trusted: Lean kernel; model fidelity by sampled differential runs; WebTorrent store and offer expiry are covered under C08/C09; the socket workers' refresh of the time sample is read as 'the handling worker's current time sample'.",
     design_ref="§8 C10",
     assumptions=["the clock is the whole-second u32 `SecondsSinceServerStart`"],
